@@ -1345,7 +1345,7 @@ def _unnest(stmts):
                 if ch:
                     setattr(s, fld, new)
                     changed = True
-        if isinstance(s, ast.Try) and s.orelse and not s.finalbody and s.handlers and all(_always_exits(h.body) for h in s.handlers) and s is stmts[-1]:
+        if isinstance(s, ast.Try) and s.orelse and not s.finalbody and s.handlers and all(_always_exits(h.body) for h in s.handlers):
             # `try: A except E: <leaves> else: B` is `try: A except E: <leaves>` followed by B
             tail = s.orelse
             s.orelse = []
@@ -1353,7 +1353,7 @@ def _unnest(stmts):
             out.extend(tail)
             changed = True
             continue
-        if isinstance(s, ast.If) and s.orelse and _always_exits(s.body) and s is stmts[-1]:
+        if isinstance(s, ast.If) and s.orelse and _always_exits(s.body):
             tail = s.orelse
             s.orelse = []
             out.append(s)
@@ -1362,6 +1362,20 @@ def _unnest(stmts):
             continue
         out.append(s)
     return out, changed
+
+
+def flatten_guards(mods):
+    """Every function of the package in guard-clause form: `if c: <leaves> else: <rest>` (also as an if/elif/else staircase) reads
+    `if c: <leaves>` followed by <rest>.  Same paths, same order of evaluation; done in place, line numbers stay."""
+    for mod, tree in mods.items():
+        if mod == 'luts':
+            continue
+        for fn in [x for x in ast.walk(tree) if isinstance(x, ast.FunctionDef)]:
+            for _ in range(12):
+                body, ch = _unnest(fn.body)
+                fn.body = body
+                if not ch:
+                    break
 
 
 def _stores(fn, name):
